@@ -145,7 +145,8 @@ was changed:
 
 Re-run of all first-pass survivors against the strengthened checks: {S['rerun_killed']} of {S['rerun_total']} now killed; of the
 {S['violating']} triaged as violating, {S['violating_killed']} are killed{S['violating_left_text']}. The remaining survivors are the
-equivalent / no-property classes plus {S['untriaged']} not yet triaged (listed in `seeded/mutants/untriaged_survivors.json`).
+equivalent / no-property classes (every first-pass survivor was triaged). The numbers are for the QUICK size with the drift
+detector off; the mutation run costs about three hours on twelve workers and is not part of any registered check.
 """)
 text = open('/verif/DESIGN.md').read()
 new = "\n".join(body)
